@@ -15,6 +15,7 @@ mod c11;
 mod c12;
 mod c13;
 mod c14;
+mod c15;
 mod c18;
 mod lite;
 mod truth;
@@ -73,6 +74,7 @@ fn main() {
             "C12" => c12::replay(&v),
             "C13" => c13::replay(&v),
             "C14" => c14::replay(&v),
+            "C15" => c15::replay(&v),
             "C18" => c18::replay(&v),
             _ => {
                 eprintln!("no replay for {id}");
@@ -94,6 +96,7 @@ fn main() {
             "C12" => c12::run(tier),
             "C13" => c13::run(tier),
             "C14" => c14::run(tier),
+            "C15" => c15::run(tier),
             "C18" => c18::run(tier),
             "SMOKE" => smoke::run("/tmp/x/smoke"),
             _ => {
